@@ -426,4 +426,26 @@ theorem inv_assembled (dst : GeoBox) (c : Crs) (hcrs : dst.crs = some c) (dims :
      · simp at hm
        exact hm.1)
 
+
+/-- `recover` on any array whose two spatial axes carry arithmetic-progression labels and whose located CRS
+coordinate is `cc` (no GCPs): explicit result -/
+theorem recover_lin (a : XArr) (yd xd : String) (cx dx cy dy : Rat) (nx ny : Nat) (xf yxf : Option Aff)
+    (ycrs xcrs : Option Crs) (cc : CrsCoord) (fb : Rat × Rat)
+    (hsd : spatialDims a.dims = some (yd, xd))
+    (hy : a.coords.lookup yd = some (.axis (ap cy dy ny) yxf ycrs))
+    (hx : a.coords.lookup xd = some (.axis (ap cx dx nx) xf xcrs))
+    (hloc : locateCrsCoords a = [cc]) (hg : cc.gcps = none) (hnx : 1 ≤ nx) (hny : 1 ≤ ny)
+    (hfb : (2 ≤ nx ∧ 2 ≤ ny) ∨ fallbackRes xf (some cc) false = .ok (some fb)) :
+    recover a = .ok (.lin ⟨ny, nx, composeP2W xf
+      (Aff.translation (cx - (1 / 2) * resOf nx dx fb.1) (cy - (1 / 2) * resOf ny dy fb.2) *
+        Aff.scale (resOf nx dx fb.1) (resOf ny dy fb.2)), cc.crs⟩) := by
+  unfold recover
+  rw [hsd]
+  simp only [hy, hx, hloc, List.head?_cons, Option.bind_some, hg, Option.isSome_none]
+  rw [extractTransform_ap _ _ _ _ _ _ hnx hny _ _ _ fb (by simpa using hfb)]
+  simp [ap_length]
+
+
+theorem beq_false_of_ne' {a b : String} (h : a ≠ b) : (a == b) = false := by simpa using h
+
 end OdcGeo.C09
